@@ -320,7 +320,7 @@ func genScenario(r *kit.Rng, kind, tier string) *scenario {
 				kk := k
 				sc.Ops = append(sc.Ops, &opSpec{Kind: "get", Key: &kk})
 			}
-		case x >= 20 && x < 22 && r.Chance(1, 3) && l.st.Max >= 1 && l.st.Max <= 16 && l.ival >= 10: // thin: open finding RTRIP lives here
+		case x >= 20 && x < 23 && l.st.Max >= 1 && l.st.Max <= 16 && l.ival >= 10:
 			// drain, then repeatedly: wait a fraction of the interval, write the reported state back, take one
 			k := ks[0]
 			for j := 0; j < int(l.st.Max)+1; j++ {
@@ -341,7 +341,11 @@ func genScenario(r *kit.Rng, kind, tier string) *scenario {
 			if r.Chance(1, 10) {
 				k = undefined
 			}
-			sc.Ops = append(sc.Ops, &opSpec{Dt: dt, Kind: "get", Key: &k})
+			kind := "get"
+			if r.Chance(1, 4) {
+				kind = "rtrip"
+			}
+			sc.Ops = append(sc.Ops, &opSpec{Dt: dt, Kind: kind, Key: &k})
 		case x < 36 && (kind == "reset" || kind == "malformed" || r.Chance(1, 3)):
 			k := ks[0]
 			st := l.st
